@@ -1514,6 +1514,10 @@ class Interp:
 
     def s_Assert(self, s, fr):
         c = self.eval(s.test, fr)
+        if fr.module.startswith("lemmas."):
+            # in a lemma program an assert is a proof obligation (counted even when it is closed at once)
+            self.st.oblige("%s::%s" % (fr.finfo.qualname, fr.finfo.label(s)), self.truthy(c), kind="lemma-assert")
+            return
         if not self.st.decide(self.truthy(c)):
             self.raise_py("AssertionError", "", fr.finfo.label(s))
 
